@@ -89,3 +89,27 @@ Lemma f23_repaired :
   let cfg := w_cfg true true in
   sto (step cfg (reach cfg w_f23) w_f23_next) = sto (step cfg (reinit cfg (reach cfg w_f23)) w_f23_next).
 Proof. vm_compute. reflexivity. Qed.
+
+(* gas-per-block history: block 1 sets the value twice (6 GAS, then 2 GAS), both records get index 2 in the cache;
+   storage keeps the last.  Read with "the last appended of equal indices" the running node answers like a restarted
+   one; read with "the first appended" ([gpb_at_first]) it would answer 6 where the restarted node answers 2 *)
+Definition w_gpb : list (list tx) :=
+  [ [ mkTx 0 100000000 1000000 [0;1;2]%N (OSetGPB 600000000) true None;
+      mkTx 0 100000000 1000000 [0;1;2]%N (OSetGPB 200000000) true None ];
+    [] ].
+Lemma w_gpb_ok : blocks_ok (w_cfg true true) w_gpb.
+Proof. repeat constructor; unfold tx_ok; simpl; discriminate. Qed.
+
+Lemma gpb_last_of_equal :
+  let cfg := w_cfg true true in
+  c_gpb (A (reach cfg w_gpb)) = [(2, 200000000); (2, 600000000); (0, 500000000)]
+  /\ c_gpb (A (reinit cfg (reach cfg w_gpb))) = [(2, 200000000); (0, 500000000)]
+  /\ gas_per_block (reach cfg w_gpb) 3 = 200000000
+  /\ gas_per_block (reinit cfg (reach cfg w_gpb)) 3 = 200000000.
+Proof. vm_compute. repeat split; reflexivity. Qed.
+
+Lemma gpb_first_of_equal_refuted :
+  let cfg := w_cfg true true in
+  gpb_at_first (c_gpb (A (reach cfg w_gpb))) 3 = 600000000
+  /\ gpb_at_first (c_gpb (A (reinit cfg (reach cfg w_gpb)))) 3 = 200000000.
+Proof. vm_compute. split; reflexivity. Qed.
